@@ -75,6 +75,10 @@ pub struct Case {
     /// reached through a tunnel: the certificate is not valid for that host
     #[serde(default)]
     pub v6_low_bits: bool,
+    /// the https origin (certificate for other names) is reached through a redirect from a plain-http URL on the same host
+    /// name: following a redirect waives nothing
+    #[serde(default)]
+    pub same_host_redirect: bool,
 }
 
 pub struct C14;
@@ -118,9 +122,9 @@ pub fn all_cases() -> Vec<Case> {
                     for route in 0..3u8 {
                         for place in 0..5u8 {
                             for host_form in 0..2u8 {
-                                v.push(Case { cert, invalid_certs, invalid_hostnames, add_root, route, place, host_form, pin_leaf: false, withdraw: 0, prior: 0, expiring: false, not_yet_valid: false, refusing_proxy: 0, same_endpoint: false, v6_low_bits: false });
+                                v.push(Case { cert, invalid_certs, invalid_hostnames, add_root, route, place, host_form, pin_leaf: false, withdraw: 0, prior: 0, expiring: false, not_yet_valid: false, refusing_proxy: 0, same_endpoint: false, v6_low_bits: false, same_host_redirect: false });
                                 if add_root {
-                                    v.push(Case { cert, invalid_certs, invalid_hostnames, add_root, route, place, host_form, pin_leaf: true, withdraw: 0, prior: 0, expiring: false, not_yet_valid: false, refusing_proxy: 0, same_endpoint: false, v6_low_bits: false });
+                                    v.push(Case { cert, invalid_certs, invalid_hostnames, add_root, route, place, host_form, pin_leaf: true, withdraw: 0, prior: 0, expiring: false, not_yet_valid: false, refusing_proxy: 0, same_endpoint: false, v6_low_bits: false, same_host_redirect: false });
                                 }
                             }
                         }
@@ -136,7 +140,7 @@ pub fn all_cases() -> Vec<Case> {
                 for add_root in [false, true] {
                     for place in 0..5u8 {
                         for host_form in 0..2u8 {
-                            v.push(Case { cert, invalid_certs, invalid_hostnames, add_root, route: 3, place, host_form, pin_leaf: false, withdraw: 0, prior: 0, expiring: false, not_yet_valid: false, refusing_proxy: 0, same_endpoint: false, v6_low_bits: false });
+                            v.push(Case { cert, invalid_certs, invalid_hostnames, add_root, route: 3, place, host_form, pin_leaf: false, withdraw: 0, prior: 0, expiring: false, not_yet_valid: false, refusing_proxy: 0, same_endpoint: false, v6_low_bits: false, same_host_redirect: false });
                         }
                     }
                 }
@@ -149,7 +153,7 @@ pub fn all_cases() -> Vec<Case> {
             for add_root in [false, true] {
                 for place in 0..2u8 {
                     for host_form in 0..2u8 {
-                        v.push(Case { cert, invalid_certs, invalid_hostnames, add_root, route: 0, place, host_form, pin_leaf: false, withdraw, prior: 0, expiring: false, not_yet_valid: false, refusing_proxy: 0, same_endpoint: false, v6_low_bits: false });
+                        v.push(Case { cert, invalid_certs, invalid_hostnames, add_root, route: 0, place, host_form, pin_leaf: false, withdraw, prior: 0, expiring: false, not_yet_valid: false, refusing_proxy: 0, same_endpoint: false, v6_low_bits: false, same_host_redirect: false });
                     }
                 }
             }
@@ -161,23 +165,24 @@ pub fn all_cases() -> Vec<Case> {
             for route in [0u8, 1] {
                 for prior in [1u8, 2] {
                     for host_form in 0..2u8 {
-                        v.push(Case { cert, invalid_certs: false, invalid_hostnames: false, add_root, route, place: 0, host_form, pin_leaf: false, withdraw: 0, prior, expiring: false, not_yet_valid: false, refusing_proxy: 0, same_endpoint: false, v6_low_bits: false });
+                        v.push(Case { cert, invalid_certs: false, invalid_hostnames: false, add_root, route, place: 0, host_form, pin_leaf: false, withdraw: 0, prior, expiring: false, not_yet_valid: false, refusing_proxy: 0, same_endpoint: false, v6_low_bits: false, same_host_redirect: false });
                     }
                 }
             }
         }
     }
     // validity is judged at the time of each exchange
-    v.push(Case { cert: 0, invalid_certs: false, invalid_hostnames: false, add_root: true, route: 0, place: 0, host_form: 0, pin_leaf: false, withdraw: 0, prior: 0, expiring: true, not_yet_valid: false, refusing_proxy: 0, same_endpoint: false, v6_low_bits: false });
-    v.push(Case { cert: 0, invalid_certs: false, invalid_hostnames: false, add_root: true, route: 0, place: 0, host_form: 0, pin_leaf: false, withdraw: 0, prior: 0, expiring: false, not_yet_valid: true, refusing_proxy: 0, same_endpoint: false, v6_low_bits: false });
+    v.push(Case { cert: 0, invalid_certs: false, invalid_hostnames: false, add_root: true, route: 0, place: 0, host_form: 0, pin_leaf: false, withdraw: 0, prior: 0, expiring: true, not_yet_valid: false, refusing_proxy: 0, same_endpoint: false, v6_low_bits: false, same_host_redirect: false });
+    v.push(Case { cert: 0, invalid_certs: false, invalid_hostnames: false, add_root: true, route: 0, place: 0, host_form: 0, pin_leaf: false, withdraw: 0, prior: 0, expiring: false, not_yet_valid: true, refusing_proxy: 0, same_endpoint: false, v6_low_bits: false, same_host_redirect: false });
     for danger in [false, true] {
-        v.push(Case { cert: 0, invalid_certs: danger, invalid_hostnames: false, add_root: true, route: 1, place: 0, host_form: 1, pin_leaf: false, withdraw: 0, prior: 0, expiring: false, not_yet_valid: false, refusing_proxy: 0, same_endpoint: true, v6_low_bits: false });
+        v.push(Case { cert: 0, invalid_certs: danger, invalid_hostnames: false, add_root: true, route: 1, place: 0, host_form: 1, pin_leaf: false, withdraw: 0, prior: 0, expiring: false, not_yet_valid: false, refusing_proxy: 0, same_endpoint: true, v6_low_bits: false, same_host_redirect: false });
     }
-    v.push(Case { cert: 0, invalid_certs: false, invalid_hostnames: false, add_root: true, route: 1, place: 0, host_form: 1, pin_leaf: false, withdraw: 0, prior: 0, expiring: false, not_yet_valid: false, refusing_proxy: 0, same_endpoint: false, v6_low_bits: true });
+    v.push(Case { cert: 0, invalid_certs: false, invalid_hostnames: false, add_root: true, route: 1, place: 0, host_form: 1, pin_leaf: false, withdraw: 0, prior: 0, expiring: false, not_yet_valid: false, refusing_proxy: 0, same_endpoint: false, v6_low_bits: true, same_host_redirect: false });
+    v.push(Case { cert: 1, invalid_certs: false, invalid_hostnames: false, add_root: true, route: 0, place: 0, host_form: 0, pin_leaf: false, withdraw: 0, prior: 0, expiring: false, not_yet_valid: false, refusing_proxy: 0, same_endpoint: false, v6_low_bits: false, same_host_redirect: true });
     // a proxy that refuses the tunnel: with and without waivers
     for refusing_proxy in 1..=3u8 {
         for danger in [false, true] {
-            v.push(Case { cert: 0, invalid_certs: danger, invalid_hostnames: danger, add_root: true, route: 1, place: 0, host_form: 0, pin_leaf: false, withdraw: 0, prior: 0, expiring: false, not_yet_valid: false, refusing_proxy, same_endpoint: false, v6_low_bits: false });
+            v.push(Case { cert: 0, invalid_certs: danger, invalid_hostnames: danger, add_root: true, route: 1, place: 0, host_form: 0, pin_leaf: false, withdraw: 0, prior: 0, expiring: false, not_yet_valid: false, refusing_proxy, same_endpoint: false, v6_low_bits: false, same_host_redirect: false });
         }
     }
     v
@@ -325,6 +330,45 @@ fn check_not_yet_valid(ctx: &mut Ctx) -> Outcome {
     }
 }
 
+/// See Case::same_host_redirect.
+fn check_same_host_redirect(case: &Case, ctx: &mut Ctx) -> Outcome {
+    use std::io::{Read, Write};
+    ctx.nontrivial = true;
+    ctx.label("https-origin-reached-through-a-same-host-redirect");
+    let mut peer = tls_server("wrongname");
+    let tls_port = peer.port();
+    let l = match std::net::TcpListener::bind("127.0.0.1:0") {
+        Ok(l) => l,
+        Err(e) => {
+            eprintln!("C14: cannot bind a loopback listener: {e}");
+            std::process::exit(2);
+        }
+    };
+    let plain_port = l.local_addr().unwrap().port();
+    let redirector = std::thread::spawn(move || {
+        if let Ok((mut s, _)) = l.accept() {
+            let _ = s.set_read_timeout(Some(std::time::Duration::from_secs(2)));
+            let mut buf = [0u8; 2048];
+            let _ = s.read(&mut buf);
+            let _ = s.write_all(format!("HTTP/1.1 307 Temporary Redirect\r\nLocation: https://localhost:{tls_port}/x\r\nContent-Length: 0\r\n\r\n").as_bytes());
+        }
+    });
+    attohttpc::verif_hooks::set_resolver(Some(Box::new(move |d, p| if d == "localhost" { Some(vec![SocketAddr::from(([127, 0, 0, 1], p))]) } else { None })));
+    let mut session = attohttpc::Session::new();
+    session.proxy_settings(attohttpc::ProxySettings::builder().build());
+    session.connect_timeout(std::time::Duration::from_secs(5));
+    session.read_timeout(std::time::Duration::from_secs(5));
+    apply_session(&mut session, case);
+    let r = session.get(format!("http://localhost:{plain_port}/start")).header("Authorization", "Bearer MSECRET").send().and_then(|r| r.text_utf8());
+    attohttpc::verif_hooks::set_resolver(None);
+    let _ = redirector.join();
+    peer.join();
+    match r {
+        Err(_) => Outcome::Pass,
+        Ok(_) => Outcome::fail(format!("C14:{}:wrong-name-accepted", backend()), format!("[{}] http://localhost:{plain_port}/start redirected to https://localhost:{tls_port}/x, whose certificate names wrong.test only; it was accepted with both danger flags off", backend())),
+    }
+}
+
 /// See Case::v6_low_bits.
 fn check_v6_low_bits(case: &Case, ctx: &mut Ctx) -> Outcome {
     ctx.nontrivial = true;
@@ -403,7 +447,7 @@ impl Property for C14 {
     const ID: &'static str = "C14";
     const RULE: &'static str = "configuration matrix {chains to the added root, wrong name, self-signed, unknown issuer, expired, each with matching / differing name, valid for only one of the two names of the peer, self-signed CA:TRUE, the good chain served without its key, a chain to the root without any subjectAltName, an unacceptable certificate with the good one appended behind it} x accept_invalid_certs x accept_invalid_hostnames x root added {no, the CA, the presented certificate itself} x \
 route {direct https, inside a CONNECT tunnel through a plain proxy, https proxy presenting the certificate for an http origin and for a tunnelled https origin} x where the flags/root were set {session, this request, sibling request created before / after, session after the request was created} x \
-contacted host {localhost, 127.0.0.1}: 6956 cells per TLS backend (the product of 14 certificates, 192 cells in which a sibling request with a waiver is sent first, one cell with a certificate made at run time that expires between two exchanges, one with a certificate whose validity starts two minutes from now, six with a proxy that refuses the tunnel and would answer a plain request, two with an https URL that names the proxy's own host and port, one with a tunnelled IPv6-literal origin whose low 32 bits spell an address the certificate lists, 800 for an https proxy that carries a CONNECT tunnel, 400 with a waiver given and then withdrawn on the request), each a real TLS handshake against a rustls server on a loopback socket; both tiers run all cells of both backends. Oracle = the truth table, both directions. \
+contacted host {localhost, 127.0.0.1}: 6957 cells per TLS backend (the product of 14 certificates, 192 cells in which a sibling request with a waiver is sent first, one cell with a certificate made at run time that expires between two exchanges, one with a certificate whose validity starts two minutes from now, six with a proxy that refuses the tunnel and would answer a plain request, two with an https URL that names the proxy's own host and port, one with a tunnelled IPv6-literal origin whose low 32 bits spell an address the certificate lists, one with a wrong-name https origin reached through a redirect from plain http on the same host name, 800 for an https proxy that carries a CONNECT tunnel, 400 with a waiver given and then withdrawn on the request), each a real TLS handshake against a rustls server on a loopback socket; both tiers run all cells of both backends. Oracle = the truth table, both directions. \
 non-trivial = at least one danger flag, an added root or a non-valid certificate; distinct by cell";
 
     fn assumptions() -> Vec<String> {
@@ -456,7 +500,7 @@ non-trivial = at least one danger flag, an added root or a non-valid certificate
 
     fn strategy(_tier: Tier) -> BoxedStrategy<Case> {
         (0u8..CERTS.len() as u8, any::<bool>(), any::<bool>(), any::<bool>(), 0u8..3, 0u8..5, 0u8..2)
-            .prop_map(|(cert, invalid_certs, invalid_hostnames, add_root, route, place, host_form)| Case { cert, invalid_certs, invalid_hostnames, add_root, route, place, host_form, pin_leaf: false, withdraw: 0, prior: 0, expiring: false, not_yet_valid: false, refusing_proxy: 0, same_endpoint: false, v6_low_bits: false })
+            .prop_map(|(cert, invalid_certs, invalid_hostnames, add_root, route, place, host_form)| Case { cert, invalid_certs, invalid_hostnames, add_root, route, place, host_form, pin_leaf: false, withdraw: 0, prior: 0, expiring: false, not_yet_valid: false, refusing_proxy: 0, same_endpoint: false, v6_low_bits: false, same_host_redirect: false })
             .boxed()
     }
 
@@ -472,6 +516,9 @@ non-trivial = at least one danger flag, an added root or a non-valid certificate
         }
         if case.v6_low_bits {
             return check_v6_low_bits(case, ctx);
+        }
+        if case.same_host_redirect {
+            return check_same_host_redirect(case, ctx);
         }
         if case.expiring {
             return check_expiring(ctx);
